@@ -38,7 +38,7 @@ def parse(
     `path` is the path of the file being parsed, as it will appear in error and
     warning messages. It defaults to "<string>".
     """
-    text = evaluate_ifdefs(text)
+    text = evaluate_ifdefs(text, keep_lines=True)
     lexer = Lexer(text, path=path)
     parser = Parser(lexer, settings)
     program = parser.parse()
@@ -252,7 +252,7 @@ class Parser:
                 return []
             else:
                 old_lexer = self.lexer
-                included_text = evaluate_ifdefs(included_text)
+                included_text = evaluate_ifdefs(included_text, keep_lines=True)
                 self.lexer = Lexer(included_text, path=include_path)
                 ops = self.parse()
                 self.lexer = old_lexer
@@ -361,7 +361,7 @@ _ifdef_pattern = re.compile(
 )
 
 
-def evaluate_ifdefs(text):
+def evaluate_ifdefs(text, *, keep_lines=False):
     """
     For compatibility with the HERA-C interpreter written in C++, hera-py supports
     #ifdef <x> ... #else ... #endif and #ifndef statements. The only token defined by
@@ -375,14 +375,26 @@ def evaluate_ifdefs(text):
 
     everything in the else clause will be stripped and may contain code that is not
     valid HERA, e.g. C++.
+
+    If `keep_lines` is true, the line breaks of the directives and of the discarded
+    text are kept, so that every remaining line keeps its line number.
     """
     ret = []
-    starting_at = 0
+
+    def discard(s):
+        if keep_lines:
+            ret.append("\n" * s.count("\n"))
+
+    position = 0
     # A stack of booleans indicating whether we should keep text in the current block.
     keeping = [True]
     for mo in _ifdef_pattern.finditer(text):
         if keeping[-1]:
-            ret.append(text[starting_at : mo.start()])
+            ret.append(text[position : mo.start()])
+        else:
+            discard(text[position : mo.start()])
+        discard(mo.group())
+        position = mo.end()
 
         kind = mo.lastgroup
         value = mo.group()
@@ -398,10 +410,10 @@ def evaluate_ifdefs(text):
         elif kind == "ENDIF" and len(keeping) > 1:
             keeping.pop()
 
-        if keeping[-1]:
-            starting_at = mo.end()
-
-    ret.append(text[starting_at:])
+    if keeping[-1]:
+        ret.append(text[position:])
+    else:
+        discard(text[position:])
     return "".join(ret)
 
 
